@@ -32,6 +32,7 @@ import DateutilVerif.Proofs.Queries
 import DateutilVerif.Proofs.Islice
 import DateutilVerif.Proofs.QueryStops
 import DateutilVerif.Model.RRuleReplace
+import DateutilVerif.Generated.ReplaceProgram
 import DateutilVerif.Proofs.RRuleReplaceOrig
 
 namespace C12
@@ -190,6 +191,47 @@ theorem replace_named_only_orig (a : RRule.Args) (r : RRule.Rule) (kw : RRule.Kw
     m.byhour = kw.byhour.getD o.byhour ∧ m.byminute = kw.byminute.getD o.byminute ∧
     m.bysecond = kw.bysecond.getD o.bysecond :=
   ⟨rfl, replace_named_only (RRule.origArgs a r) kw⟩
+
+/-! ### `replace` read from the source
+
+`Gen.replaceProgram` (Generated/ReplaceProgram.lean) is the statement shape of `rrule.replace` as
+`harness/translate_replace.py` reads it from /repo's working tree on every run: the keys of the dictionary
+literal with the attribute each is filled from, the `update` calls in order, the constructor called.
+`ReplacePy.run` gives it its meaning over keyword dictionaries. -/
+
+theorem orElse_getD {α} (e : Option α) (x y : α) : (e.orElse (fun _ => some x)).getD y = e.getD x := by cases e <;> rfl
+
+/-- **replace_eq_construct_partial.**  The method AS TRANSLATED FROM THE SOURCE hands the constructor exactly the
+    recorded arguments with the named parameters overridden: for every argument set `a`, rule `r` and keywords `kw`,
+    running the translated program on `r`'s attributes, `r`'s `_original_rule` and `kw` and calling the constructor it
+    names is `construct (merge (origArgs a r) kw)` — the hand model `RRule.replace` that all theorems above are about.
+    With C01's `construct_origArgs` (`replace_nothing_id` above: `merge (origArgs a r) {}` rebuilds `r`) this is "a rule
+    differing only in the named parameters" for the code as it stands: a changed key, attribute, order of the
+    two `update` calls or constructor breaks THIS obligation (or the translation) on the next run.
+    `_partial`: FULL statement = the same with `_original_rule` also read from the source.  What is missing: the
+    bookkeeping statements of `rrule.__init__` that fill `_original_rule` (a dozen assignments spread over the
+    constructor's branches) are not translated; `ReplacePy.recordedKw` takes them from the hand model
+    `RRule.origArgs` (C01), tied to the code by the `query.replace` / `query.replace_rec` / `query.replace_gen`
+    correspondence (the last two read `_original_rule` off the real object). -/
+theorem replace_eq_construct_partial (a : RRule.Args) (r : RRule.Rule) (kw : RRule.Kw) :
+    ReplacePy.replaceGen Gen.replaceProgram a r kw = some (RRule.construct (RRule.merge (RRule.origArgs a r) kw)) ∧
+    ReplacePy.replaceGen Gen.replaceProgram a r kw = some (RRule.replace a r kw) := by
+  have h : ReplacePy.replaceGen Gen.replaceProgram a r kw = some (RRule.construct (RRule.merge (RRule.origArgs a r) kw)) := by
+    unfold ReplacePy.replaceGen
+    simp only [Gen.replaceProgram, ReplacePy.run, ReplacePy.literalKw, ReplacePy.setKey, ReplacePy.applyUpdates, ReplacePy.update,
+      ReplacePy.recordedKw, ReplacePy.toArgs, beq_self_eq_true, ↓reduceIte, Option.map_some, Option.bind_some,
+      Option.orElse_none, Option.orElse_some]
+    cases hf : kw.freq <;> cases hd : kw.dtstart <;> cases ht : kw.tz <;>
+      simp [RRule.merge, RRule.origArgs, hf, hd, ht]
+  exact ⟨h, h⟩
+
+-- the obligation distinguishes programs: with the two `update` calls swapped a recorded BY part would override the keyword passed
+example : (ReplacePy.run { Gen.replaceProgram with updates := [.kwargs, .originalRule] } default
+            { bymonth := some (some [3]) } { bymonth := some (some [5]) }).map (·.bymonth) = some (some (some [3])) := by decide
+example : (ReplacePy.run Gen.replaceProgram default
+            { bymonth := some (some [3]) } { bymonth := some (some [5]) }).map (·.bymonth) = some (some (some [5])) := by decide
+-- a key filled from the wrong attribute has no meaning
+example : ReplacePy.run { Gen.replaceProgram with literal := [(.interval, .attrCount)] } default {} {} = none := by decide
 
 -- a WEEKLY rule without BYDAY does not record its derived weekday: replace(dtstart=…) moves it
 example : (do let a : RRule.Args := { freq := 2, dtstart := ⟨2020, 1, 1, 0, 0, 0, 0⟩ }     -- a Wednesday
